@@ -296,7 +296,7 @@ def conn_jobs():
 
 HDR_STUBS = {"(*bufio.Reader).ReadString": "zzStubReadString", "(*bytes.Buffer).WriteString": "zzStubWriteString", "(*bytes.Buffer).Bytes": "zzStubBytes", "(*bytes.Buffer).Len": "zzStubLen", "(*bytes.Buffer).WriteByte": "zzStubWriteByte",
              "bufio.NewScanner": "zzStubNewScanner", "(*bufio.Scanner).Scan": "zzStubScan", "(*bufio.Scanner).Text": "zzStubText", "(*bufio.Scanner).Err": "zzStubErr",
-             "strings.Trim": "zzStubTrim", "gopkg.in/yaml.v1.Unmarshal": "zzStubUnmarshal"}
+             "strings.Trim": "zzStubTrim", "strings.TrimSpace": "zzStubTrimSpace", "gopkg.in/yaml.v1.Unmarshal": "zzStubUnmarshal"}
 CONN_EXPL = ("handleConn (cmd/thermal-recorder/main.go) is executed symbolically from its real SSA with the socket, the header parser, the config loader, YAML, D-Bus calls and "
              "MotionProcessor.Process/Reset replaced by contract stubs: io.ReadFull reads from a ghost byte stream made of K items (8-byte frames with arbitrary content, or the 5-byte 'clear' marker, kinds symbolic) followed by a fragment of 0..7 arbitrary bytes (connection cut at any point); "
              "Process returns nil / BadFrameErr / another error nondeterministically. Asserted: one Process call per complete frame with exactly its bytes, one Reset(headerInfo) per marker, in stream order (alignment kept), an error when the stream ends, a camera restart request exactly for bad frames; "
